@@ -17,7 +17,7 @@ CHECKS = {
          'Seeded server scripts [compress]? [encrypt]? [compress]? with plugin requests at any position, ending in success or a disconnect at any point; thresholds {0,1,64,256,2^31-1}; 1024/2048-bit keys; token sizes 1..64; server ids; with/without auth token and join replies incl. errors; optional user plugin listener; in 30% of the cases a second login on the same Connection (by the user or by the exception handler); protocols either side of 385/391/707; segmentation. The independent server checks the clear-text response, both RSA blobs, CFB8 on all later bytes, framing discipline after set-compression, exactly one answer per plugin request, the join payload and hash, play entry, and the surfaced error for disconnects and failed joins.',
          'DESIGN.md 3/C10'),
  'C11': ('exploration', 'seeded server-history search under deterministic simulation, independent server-side answer oracle',
-         'Seeded play histories of 1..400 packets (keep-alive ids at every VarInt/Long boundary incl. negatives, position-and-look, unknown ids, known-unhandled packets, pauses; bursts crossing the 50-read and 300-write batches; 0/5/320/650 user-queued packets) ending in a play disconnect, compression on/off, optional segmentation, optional slow early listener, 25% 'kick' cases (server closes right after the disconnect packet, send-error fault), protocol sampled with layout boundaries over-weighted (thorough: all collision-free supported versions x4). Oracle: answers equal sent ids in order exactly once, teleports acknowledged per version, deliveries in order with unknown ids generic, FIN after all answers, exit callback once, no error.',
+         'Seeded play histories of 1..400 packets (keep-alive ids at every VarInt/Long boundary incl. negatives, position-and-look, unknown ids, known-unhandled packets, pauses; bursts crossing the 50-read and 300-write batches; 0/5/320/650 user-queued packets) ending in a play disconnect, compression on/off, optional segmentation, optional slow early listener, 25% kick cases (server closes right after the disconnect packet, send-error fault), protocol sampled with layout boundaries over-weighted (thorough: all collision-free supported versions x4). Oracle: answers equal sent ids in order exactly once, teleports acknowledged per version, deliveries in order with unknown ids generic, FIN after all answers, exit callback once, no error.',
          'DESIGN.md 3/C11'),
  'C13': ('exploration', 'seeded listener-configuration x history search under deterministic simulation against a reference dispatcher over the global event order',
          'Seeded configurations of 0..10 listeners over the four classes with 0..3 type filters from a hierarchy (abstract super-classes, unrelated classes), random IgnorePacket subsets (also for the set-compression packet, with a server that keeps the old framing when the reaction is suppressed), incoming listeners that write a forced packet during dispatch, x login and play packet histories x queued/forced user writes. A reference dispatcher predicts the global incoming call log and, per outgoing packet, early calls / written? / ordinary calls; byte offsets of the client stream at each callback decide before/after-the-write; the built-in reaction is placed between the stages through its observable effects.',
